@@ -932,6 +932,11 @@ var blockRules = map[BlockKind]blockRule{
 			i := end
 			for ; i > 0; i-- {
 				child := block.inlineChildren[i-1]
+				if child.Kind() == IndentKind {
+					// The rest of a partially consumed tab
+					// in front of a blank line that is being dropped.
+					continue
+				}
 				if child.Kind() != TextKind || !isBlankLine(spanSlice(source, child.Span())) {
 					break
 				}
